@@ -29,14 +29,15 @@ PROPS = {
         explanation='Replay/parse and the crash-prefix theorem are proved for all logs and all cut points; open/append/recover/checkpoint sequences on real files are bounded.',
     ),
     'C10': dict(
-        v=['C10_fold'], k=[], b=[],
+        v=['C10_fold', 'C10_walfile'], k=[], b=[],
         level='other',
         technique='Verus: extracted RaftRecoveryState::from_entries proved equal to term/vote and log folds written from the property + stickiness lemmas',
         claim='recovered (term, vote) = highest acted-on term and the FIRST vote recorded in it, recovered log = appended entries after truncations in index order, for every WAL entry sequence (Verus; BTreeMap by assumed contract)',
         explanation='Recovery fold proved for all entry sequences; file-level crash/restart sequences are bounded.',
     ),
     'C12': dict(
-        v=['C12_locks'], k=[], b=[],
+        v=['C12_locks'], k=[], b=['c12_locks'],
+        pairs={'C12_locks': ['bounded:c12_locks']},
         level='other',
         technique='Verus: extracted LockManager::try_lock proved all-or-nothing over a real HashMap (vstd model), clock uninterpreted',
         claim='try_lock: refusal names a live conflicting holder and changes nothing; grant only if no requested key is held by another live transaction, then all requested keys are held with one handle and every other key is untouched (Verus, all tables and key sets, locks erased)',
@@ -51,18 +52,39 @@ PROPS = {
         explanation='Comparator kernel proved; query strategies are checked by the bounded sets.',
     ),
     'C06': dict(
-        v=['C06_sparse'], k=[], b=[],
+        v=['C06_sparse'], k=[], b=['c06_search'],
         level='other',
         technique='Verus contracts on extracted SparseVector::try_from_dense / to_dense + round-trip lemma',
         claim='sparse<->dense conversion keeps exactly the non-zero entries with exact values, representation invariant holds (Verus, all inputs)',
         explanation='Representation round trip proved; search structure is bounded.',
     ),
     'C07': dict(
-        v=[], k=[('tensor_store', ['c07_header_roundtrip_fields', 'c07_header_roundtrip_bytes', 'c07_header_validate_exact'])], b=[],
+        v=[], k=[('tensor_store', ['c07_header_roundtrip_fields', 'c07_header_roundtrip_bytes', 'c07_header_validate_exact'])], b=['c07_snapshot'],
         level='other',
         technique='Kani full-domain harnesses on SnapshotHeader raw codec and validate',
         claim='snapshot header codec is bijective on all 20-byte arrays; validate accepts exactly (V3 magic, current version)',
         explanation='Header codec proved; store round trips bounded.',
+    ),
+    'C03': dict(
+        v=[], k=[], b=['c03_2pc'],
+        level='other',
+        technique='bounded native contract checks of the 2PC coordinator and participant (per-call contracts with ghost decision state over all short call sequences); no function of this property could be brought into Verus/Kani (parking_lot locks + HashMap::get_mut + WAL I/O entangled in each method)',
+        claim='BOUNDED: coordinator decides at most once, commit only from all-yes Prepared, a commit decision is never aborted or timed out, timed-out transactions are queued once with their participants and their locks released, participants apply writes iff commit — on every call sequence of length <= 5 (quick) over 1-2 transactions x 2-3 shards',
+        explanation='Bounded stand-in only (no deductive obligation): every enumerated call sequence on the real coordinator/participant satisfies the per-call contracts; message-loss histories and threads are not covered.',
+    ),
+    'C13': dict(
+        v=['C13_walfile'], k=[], b=['c13_txrecovery'],
+        level='other',
+        technique='Verus: TxWal open scan proved equal to the whole-record-prefix spec (torn tail dropped on reopen); bounded native checks of the recovery fold (exhaustive on short logs) and of recover-then-act at every byte cut of real WAL files',
+        claim='TxWal::count_entries == whole-record prefix for every file (Verus); BOUNDED: classification fold matches the spec on all entry sequences <= 5 over 15 symbols, no logged outcome is reversible after recovery at any byte cut of scripted runs, an entry appended after a torn-tail reopen is recovered',
+        explanation='Open scan proved; recovery behaviour bounded on real files.',
+    ),
+    'C16': dict(
+        v=['C16_verify'], k=[], b=['c16_chain'],
+        level='other',
+        technique='Verus: extracted Block::verify_chain and Chain::verify_chain proved (verification Ok => every height links to its predecessor and is signed when keys are registered; hash/tx-root/signature uninterpreted); bounded native checks of append guards, tamper detection, commit atomicity, replica determinism',
+        claim='chain walk soundness proved for every stored chain (Verus, crypto uninterpreted); BOUNDED: append guards, single/multi-mutation tamper detection on chains <= 4 blocks, workspace commit/rollback atomicity, state-root determinism',
+        explanation='Verify walk proved; the remaining obligations bounded. Open known findings are listed in known_findings.json.',
     ),
     'C14': dict(
         v=[], k=[('tensor_vault', ['c14_permission_allows_total_order', 'c14_permission_level_roundtrip', 'c14_max_min_are_lattice_ops',
@@ -82,8 +104,9 @@ PROPS = {
     'C17': dict(
         v=['C17_gossip'],
         k=[('tensor_chain', ['c17_sup_irreflexive', 'c17_sup_asymmetric', 'c17_sup_transitive', 'c17_sup_total_on_keys'])],
-        b=[],
-        level='proof',
+        b=['c17_merge'],
+        pairs={'C17_gossip': ['bounded:c17_merge']},
+        level='other',
         technique='Verus: extracted merge/tick/sync_time proved equal to a fold spec + convergence theorem; Kani: supersedes is a strict order',
         claim='real merge == left fold of "adopt iff greater in a strict total order" (Verus, all maps and batches); that fold is independent of order/grouping/repetition (Verus theorem); clock and merged incarnation never decrease; supersedes order kernel (Kani, all states)',
         explanation='',
@@ -96,7 +119,7 @@ PROPS = {
         explanation='Heap order kernel proved; path validity/optimality bounded.',
     ),
     'C19': dict(
-        v=['C19_chunk'], k=[], b=[],
+        v=['C19_chunk'], k=[], b=['c19_blob'],
         level='other',
         technique='Verus contract on extracted Chunker::chunk_count (nonlinear lemma; div_ceil by assumed std contract)',
         claim='chunk count is ceil(len/chunk_size) for every len and chunk_size >= 1 (Verus)',
